@@ -342,8 +342,7 @@ public:
 	void insert(const_iterator what_begin, const_iterator what_end)
 	{
 		for (const_iterator ptr(what_begin); ptr < what_end; ++ptr)
-			if (!insert(ptr).second)
-				break;
+			insert(ptr);	// an element that is already present does not stop the rest of the range
 	}
 
 	/*! Clear the set (does not delete) */
